@@ -152,3 +152,18 @@ func GlobMatch(p, s string) bool {
 	}
 	return matchToks(toks, s)
 }
+
+// GlobPrefixEndsFF reports whether the literal prefix of pattern p (the bytes
+// before the first metacharacter or escape) is non-empty and ends in 0xff —
+// the shape of the listed known finding glob-limits-0xff.
+func GlobPrefixEndsFF(p string) bool {
+	n := 0
+	for n < len(p) {
+		switch p[n] {
+		case '*', '?', '[', '\\':
+			return n > 0 && p[n-1] == 0xff
+		}
+		n++
+	}
+	return n > 0 && p[n-1] == 0xff
+}
